@@ -3,6 +3,14 @@ import json, sys
 sys.path.insert(0, "/verif/py")
 
 CLAIMS = {
+ "C02": ("Theorems (props/C02.v, closed): from every tree with the cache shape invariant, for every key, chunk list (i.e. every chunking), algorithm, declared size in {none, correct}, flavour and entry point (streamed keyed / by address, one-shot write / write_hash), the write returns the address sri_of(algo, concat chunks), the invariant is kept, read by key and by address return exactly the data, metadata carries the right fields, other keys are unchanged; proved through the writer invariant (temp bytes = bytes hashed; mapped prefix on the mmap path), publication by rename and the index refinement of C05. Hash = any function with >= 2 digest bytes. The record's codec round trip is the hypothesis wf_rec (C11). Tie to /repo: random write programs (all entry points, chunkings incl. empty/1-byte/decreasing, sizes around 16 KiB and the 1 MiB mmap threshold, hostile keys, five algorithms, three flavours) read back by key/address/stream.",
+         "proof (writer invariant + refinement) + differential correspondence", "7/C02"),
+ "C08": ("Theorems (props/C08.v, closed) for every writer state meeting the writer invariant and every tree with the cache invariant: the decision rule of commit is exactly (i) declared integrity not matched -> Integrity error, (ii) else declared size != bytes written -> SizeMismatch(declared, written), (iii) else success; in (i)/(ii) every index location is byte-identical to before (the key's previous mapping untouched) and no temp file remains; in (iii) a keyed commit maps the key to the complete new entry and nothing else changes. 'Satisfies' = the declaration contains the digest under the writer's algorithm (ssri matches). Tie to /repo: streamed writers with declared sizes smaller/equal/larger and integrities correct/wrong/other-algorithm/multi-hash on three flavours.",
+         "proof (case analysis of commit over the writer invariant) + differential correspondence", "7/C08"),
+ "C14": ("Theorems (props/C14.v, closed): opening a writer and writing chunks change no lookup and touch only the writer's own temp file; dropping removes the temp file and leaves every other location identical; a rejected commit leaves every index location identical and no temp file. Hence only an accepted commit can make data reachable under a key. Partial: dropping an async writer while a blocking write is in flight is executor behaviour the model cannot exhibit; the harness exercises drops after every chunk count and compares tmp/ and the whole tree. Tie to /repo: programs with dropped / rejected / left-open writers interleaved with successful operations.",
+         "proof (frame lemmas per writer step) + differential correspondence; partial for in-flight async drop", "7/C14"),
+ "C16": ("Theorems (props/C16.v, closed): the returned address equals sri_of(algorithm, bytes) whatever the key, chunking, flavour, entry point, declared size and cache state; the data is stored complete at the path of its digest; re-storing bytes whose address exists leaves the stored copy byte-identical and creates or changes no other content file; paths of different algorithms are disjoint. 'Equals the standard digest' is carried by the correspondence: the model's hash parameter is bound to hashlib/libxxhash at run time, independent of RustCrypto. Tie to /repo: programs re-writing equal data under same/different keys via different entry points, flavours and all five algorithms; addresses, lookups and the final tree (one file per address) compared.",
+         "proof + differential correspondence against independent digest implementations", "7/C16"),
  "C01": ("Theorems over an ARBITRARY tree (any finite map of files/dirs/symlinks, i.e. every damage pattern at once) and an arbitrary hash function: a successful read_hash / read / streamed read finished by check (for every list of buffer sizes) / checked copy, hard link, reflink delivers bytes that carry the digest of the requested (resp. the looked-up entry's) address and mutates nothing; with collision-freeness on the two strings the bytes equal the stored ones (props/C01.v, closed under the global context). Tie to /repo: random programs that store data, damage content files (bit flip, truncation, extension, emptying, swap, deletion, symlink substitution) and retrieve through all checked entry points on three flavours, compared step by step and tree by tree with the extracted model; direct oracle: hashlib digest of every delivered byte string / destination file equals the address.",
          "proof (arbitrary-state soundness lemmas over step programs) + differential correspondence", "7/C01"),
  "C18": ("Theorems over an arbitrary tree and destination state: a successful (checked or unchecked) copy leaves exactly the stored bytes at the destination and returns their length, a successful hard link needs a fresh destination and links the stored node, a missing key gives NotFound and missing content an I/O error with the tree untouched, and a checked extraction that fails verification leaves the whole tree (hence the destination) exactly as it was (props/C18.v, closed). Tie to /repo: extraction programs over pristine and damaged content, fresh and existing destinations, three flavours; oracle on the real destination file.",
